@@ -331,26 +331,30 @@ def gen_rollup(rng, paint=False):
     df = rng.random() < 0.5
     doubled = rng.random() < 0.5
     depth = rng.choice(["RU2", "RU3", "RU4"])
+    ru_once = rng.random() < 0.4          # the roll-up command only once; later rows by carriage return + preamble
     frame = rng.choice([0, 30, 900])
     lines = ["Scenarist_SCC V1.0", ""]
     rows = []
     nrows = rng.randint(1, 8)
     base_row = rng.choice([15, 15, 14, 10])
     for k in range(nrows):
-        text = " ".join("".join(rng.choice(SAFE_CHARS[:52]) for _ in range(rng.randint(1, 7))) for _ in range(rng.randint(1, 4)))[:30]
+        maxlen = rng.choice([32, 32, 31, 20, 9])
+        text = " ".join("".join(rng.choice(SAFE_CHARS[:52]) for _ in range(rng.randint(1, 7))) for _ in range(rng.randint(1, 6)))[:maxlen].rstrip()
+        if rng.random() < 0.15:
+            text = (text + "".join(rng.choice(SAFE_CHARS[:52]) for _ in range(32)))[:32]     # a full-width row
         words = []
         if paint:
             r = rng.randint(1, 15)
             words += [CMD["RDC"]] * (2 if doubled else 1)
-            words += [pac(r, rng.choice([0, 4, 8]))] * (2 if doubled else 1)
+            words += [pac(r, 0)] * (2 if doubled else 1)
         else:
-            words += [CMD[depth]] * (2 if doubled else 1)
+            if k == 0 or not ru_once:
+                words += [CMD[depth]] * (2 if doubled else 1)
             words += [CMD["CR"]] * (2 if doubled else 1)
-            words += [pac(base_row, rng.choice([0, 0, 4]))] * (2 if doubled else 1)
-        first_char_frame = frame + len(words)
+            words += [pac(base_row, 0)] * (2 if doubled else 1)
         words += chars_to_words(text)
         lines.append(timecode(frame, df) + "\t" + " ".join(words))
         lines.append("")
         rows.append({"text": text, "frame": frame, "words": len(words)})
         frame += len(words) + rng.choice([10, 30, 60, 90])
-    return {"mode": "paint" if paint else "roll", "text": "\n".join(lines) + "\n", "rows": rows, "df": df, "doubled": doubled, "offset": 0}
+    return {"mode": "paint" if paint else "roll", "text": "\n".join(lines) + "\n", "rows": rows, "df": df, "doubled": doubled, "offset": 0, "ru_once": ru_once}
